@@ -105,6 +105,24 @@ def run(ctx):
     f = ctx.facts("A")
     g = gatemod.Gate(ctx, f)
     L = g.L
+    # build() answers every builder state with Ok or Err: a state the parser rejects with an error (an out-of-range
+    # clock, say) must be rejected with an error here too, not with a panic (a setter that asserts its argument in
+    # front of the validity test turns "the build error names that aspect" into an abort)
+    ctx.rule("build-total.panic-audit")
+    from .. import panics
+    BUILD_PANIC_TABLE = {
+        ("Board::king", "expect", "bitboard::BitBoard::next_square"): "called only after board validation established one king per colour (gate order, C06)",
+        ("rank::Rank::index_const", "panic", "panic_fmt"): "documented panicking constructor; callers proved in range",
+        ("square::Square::index_const", "panic", "panic_fmt"): "documented panicking constructor; callers proved in range",
+        ("file::File::index_const", "panic", "panic_fmt"): "documented panicking constructor; callers proved in range",
+        ("get_bishop_moves", "assert", "BoundsCheck"): "C05 in-bounds audit",
+        ("get_rook_moves", "assert", "BoundsCheck"): "C05 in-bounds audit",
+        ("pext::get_pext_index", "assert", "Overflow:Add(usize)"):
+            "PEXT back end: C05 evaluates offset + pext(occupancy, mask) for every square and relevant subset and finds it inside the table",
+    }
+    a_ = panics.Audit(f).run([BUILDER + "::build"])
+    n_ = panics.report(ctx, a_, BUILD_PANIC_TABLE, "panic")
+    ctx.floor("panic sites audited", n_, 20)
     ctx.rule("same-gate")
     vp = g.check_gate(ctx, B + "::from_fen", "parser")
     vb = g.check_gate(ctx, BUILDER + "::build", "builder")
